@@ -155,6 +155,14 @@ def gen_case(rnd, tier, index):
     cfg['output_form'] = rnd.choice(('list', 'list', 'single')) if cfg['outputs'] else None
     if cfg['output_form'] == 'single':
         cfg['outputs'] = cfg['outputs'][:1]
+    # the other two ways of saying what is checked: all formulas of one sheet (sheet=), and
+    # the listed cells only, without their precedents (verify_tree=False)
+    roll = rnd.random()
+    if cfg['outputs'] is None and not knobs['computed_refs'] and roll < 0.25:
+        fsheets = sorted({wbgen.split_addr(a)[0] for a in formulas})
+        cfg['sheet'] = rnd.choice(fsheets)
+    elif cfg['outputs'] and roll < 0.2:
+        cfg['verify_tree'] = False
     cfg['corrupt_seed'] = rnd.randrange(1 << 30)
     # what the compiler did before it was asked to validate: cells evaluated (part of the graph
     # exists, the rest is built by validate_calcs), inputs assigned the value they already hold
@@ -261,10 +269,17 @@ def run_case(case):
         count('fault:unknown-function' if kind == 'unknown' else 'fault:plugin-raise')
 
     outputs = cfg.get('outputs')
+    verify_tree = cfg.get('verify_tree', True)
+    if outputs is None and cfg.get('sheet'):
+        # validate_calcs(sheet=..): every formula cell of that sheet (and what they need)
+        outputs = [a for a in dag.formulas() if wbgen.split_addr(a)[0] == cfg['sheet']]
+        count('probe:checked-outputs-given-as-a-sheet')
+    if not verify_tree:
+        count('probe:verify_tree-off')
     if outputs is None:
         reachable = True
     else:
-        reach = dag.closure(outputs, declared=True)
+        reach = dag.closure(outputs, declared=True) if verify_tree else set(outputs)
         reachable = site in reach if site else True
         if site and reachable and site not in outputs and 'cse' in dag.cell[site]:
             # a member of an array formula that is only reached through the block's range node
@@ -284,6 +299,11 @@ def run_case(case):
                     affected.add(a)
                     affected |= dag.descendants(a)
 
+    if site and outputs is not None and not verify_tree and not reachable and (
+            affected & set(outputs)):
+        # only the listed cells are calculated: a dependant of the site is calculated from the
+        # site's stored result and may or may not agree with its own
+        reachable = None
     site2 = cfg.get('site2') if kind in ('unknown', 'boom') else None
     affected2 = set()
     affected1 = set(affected)
@@ -294,13 +314,16 @@ def run_case(case):
                 if set(dag.decl.get(a, ())) & affected2:
                     affected2.add(a)
         affected |= affected2
-    reach2 = site2 is not None and (outputs is None or site2 in dag.closure(outputs, declared=True))
+    reach2 = site2 is not None and (outputs is None or site2 in (
+        dag.closure(outputs, declared=True) if verify_tree else set(outputs)))
 
     def reachable_avoiding(target, blocker):
         """reachable from the checked outputs without passing through `blocker` (the walk of
         validate_calcs does not go behind a cell it cannot evaluate)"""
         if outputs is None:
             return True
+        if not verify_tree:
+            return target in outputs
         seen, todo = set(), list(outputs)
         while todo:
             x = todo.pop()
@@ -352,13 +375,18 @@ def run_case(case):
                     count('fault:input-assigned-the-value-it-holds')
             except Exception:   # noqa   (a failing cell evaluated early: validate reports it)
                 count('prelude-op-raised')
-        arg = outputs
-        if outputs and cfg.get('output_form') == 'single':
-            arg = outputs[0]
+        arg = cfg.get('outputs')
+        if arg and cfg.get('output_form') == 'single':
+            arg = arg[0]
+        kwargs = {}
+        if cfg.get('sheet') and cfg.get('outputs') is None:
+            kwargs['sheet'] = cfg['sheet']
+        if not verify_tree:
+            kwargs['verify_tree'] = False
         buf = io.StringIO()
         try:
             with contextlib.redirect_stdout(buf):
-                report = model.validate_calcs(output_addrs=arg, tolerance=tol)
+                report = model.validate_calcs(output_addrs=arg, tolerance=tol, **kwargs)
         except Exception as exc:   # noqa
             violate('validate_calcs-raised', 'a report', f'{type(exc).__name__}: {str(exc)[-300:]}',
                     exc=type(exc).__name__)
